@@ -351,7 +351,11 @@ fn check_str(
                     let hex = format!("{:x}", arg as u64);
                     let hex32 = format!("{:x}", arg as u64 & 0xffff_ffff);
                     let lower = text.to_lowercase();
-                    if !(lower.contains(&dec) || lower.contains(&hex) || lower.contains(&hex32)) {
+                    // the number must appear as a token of its own (decimal, hex or 0x-hex)
+                    let has = lower.split(|c: char| !c.is_ascii_alphanumeric() && c != '-').any(|t| {
+                        t == dec || t == hex || t == hex32 || t == format!("0x{hex}") || t == format!("0x{hex32}")
+                    });
+                    if !has {
                         out.violate(
                             format!("to_string:{fname}({arg})"),
                             format!("fallback text {text:?} does not contain the number"),
